@@ -40,6 +40,8 @@ def project_probes(ctx, project):
                 f["lines"][0]["segs"][0].startswith("﻿"):
             ctx.probe("bom_file")
     ctx.probe("syntax_" + project["syntax"])
+    if project.get("cfg_glob"):
+        ctx.probe("glob_covers_config_file")
 
 
 def do_show(ctx, w, clock, text, extra_argv=(), state=None):
